@@ -9,7 +9,7 @@ from .. import common
 from ..common import sig_key
 
 LEVEL = "exploration"
-RULE = "Real executions of autograd.test_util.check_grads on user primitives (scalar, vector, matrix, broadcasting binary, complex vector, complex 0-d scalar, real-valued non-holomorphic |z|^2 of a complex scalar/vector, complex matrix whose derivative is a transposed view, tuple-of-arrays and dict arguments (rule building its dict in another key order)) whose VJP/JVP rules are correct (must pass: 0 rejections tolerated) or carry one planted defect from {factor 1+-1e-2/1e-1/1, sign, reversal/transpose, missing reduction over a broadcast axis, one entry off by 10%/100%, dropped conjugate, leaf swap, one NaN / inf entry, rule not traceable (order-2 defect)} in the VJP, the JVP or the rule's own derivative; requested modes rev/fwd/both and orders 1-2; every trial reseeds NumPy's global generator so the checker's own projections vary. Verdict per defect setting: one-sided exact binomial test of p>=0.99 at alpha=1e-9. combo_check over 3 positional x 2 keyword candidates with the defect active for exactly one combination (each combination in turn) plus a trace of which combinations the primal was evaluated on (all must be). Defect settings repeated on a function object that first passed a weaker explicit request (other mode, order 1) and is then checked with the defaults; the older entry point autograd.util.quick_grad_check, verbose and not; correct functions with leafless (empty tuple/list/dict) arguments in every mode and order. Also check_grads on correct built-in elementwise/reduction primitives at regular points, incl. points where an intermediate harmlessly underflows (Gaussian tail, stable log-sum-exp / softmax with a very negative logit). Non-trivial iff >= 1 trial ran; distinct = distinct (argument kind, defect, where, modes, order) settings."
+RULE = "Real executions of autograd.test_util.check_grads on user primitives (scalar, vector, matrix, broadcasting binary, complex vector, complex 0-d scalar, real-valued non-holomorphic |z|^2 of a complex scalar/vector, complex matrix whose derivative is a transposed view, tuple-of-arrays and dict arguments (rule building its dict in another key order)) whose VJP/JVP rules are correct (must pass: 0 rejections tolerated) or carry one planted defect from {factor 1+-1e-2/1e-1/1, sign, reversal/transpose, missing reduction over a broadcast axis, one entry off by 10%/100%, dropped conjugate, leaf swap, one NaN / inf entry, rule not traceable (order-2 defect)} in the VJP, the JVP or the rule's own derivative; requested modes rev/fwd/both and orders 1-2; every trial reseeds NumPy's global generator so the checker's own projections vary. Verdict per defect setting: one-sided exact binomial test of p>=0.99 at alpha=1e-9. combo_check over 3 positional x 2 keyword candidates with the defect active for exactly one combination (each combination in turn) plus a trace of which combinations the primal was evaluated on (all must be). Defect settings repeated on a function object that first passed a weaker explicit request (other mode, order 1) and is then checked with the defaults; the older entry point autograd.util.quick_grad_check, verbose and not; correct functions with leafless (empty tuple/list/dict) arguments in every mode and order. A rule wrong only for a named option is rejected when the check is requested with that option (closure, quick_grad_check kwargs= / extra_args=). Also check_grads on correct built-in elementwise/reduction primitives at regular points, incl. points where an intermediate harmlessly underflows (Gaussian tail, stable log-sum-exp / softmax with a very negative logit). Non-trivial iff >= 1 trial ran; distinct = distinct (argument kind, defect, where, modes, order) settings."
 ASSUMPTIONS = ["statistical statement: alpha=1e-9 per setting; 'small relative error' fixed at >= 1e-2 (1e-3 is measured and reported only)", "points are well scaled: |values|,|derivatives| <= 10"]
 
 
